@@ -14,6 +14,8 @@
 //       -3  the payload's copy assignment throws part-way (write window left open: a torn object) whenever it runs
 //           OUTSIDE an exception handler.  lr_guarded assigns payloads only inside its two catch blocks (where
 //           std::current_exception() is set), so on the real code this never happens.
+//       -4  Mutex = OvMutex: the instrumented mutex with an additional overload lock(int) (a mutex type whose
+//           lock() is overloaded: &M::lock is ambiguous); lock_guard calls lock(): same events
 //       -2  Mutex = std::timed_mutex instead of std::mutex (same lock/unlock events; the try_lock_shared_for /
 //           _until forms ignore their argument and must not touch the write mutex)
 // ops:  0 fid   modify(f_fid)        f_fid(x) = user_call(fid); x.write(x.read()*8+fid); user_call(fid+100)
@@ -21,6 +23,8 @@
 //               aware: operator()(T&) && behaves like f_fid and then gives up its state (every later call only
 //               does user_call(fid+50)).  modify must apply its named parameter (an lvalue) twice, so the
 //               && overload never runs and the trace is the same as for `0 fid`.
+//       0 fid 3 the same modification by a functor that RETURNS a value (long: fid % 2, i.e. 0 for even fids);
+//               modify discards whatever its functor returns: same trace as `0 fid`
 //       0 fid 2 the same modification issued from the destructor of a scope guard while an unrelated exception
 //               unwinds the stack (std::uncaught_exceptions() > 0 throughout): same trace as `0 fid`; a functor
 //               exception is carried out of the destructor by hand and re-raised after the unwinding
@@ -138,6 +142,16 @@ template<class A> auto max_atomic(const A& a, int) -> decltype((long)a.vs_peek()
 }
 template<class A> long max_atomic(const A&, long) { return -12345; }
 
+// a mutex whose lock() is overloaded
+struct OvMutex: vstd::mutex {
+    using vstd::mutex::lock;
+    void lock(int spins)
+    {
+        (void)spins;
+        vstd::mutex::lock();
+    }
+};
+
 // the component, for one mutex type
 template<class M>
 struct LRImpl {
@@ -187,6 +201,15 @@ struct LRImpl {
         const long flag = o.size() > 2 ? o[2] : 0;
         if (o[0] == 0 && flag == 1) {
             lr.modify(RvFunctor{a});
+            return 0;
+        }
+        if (o[0] == 0 && flag == 3) {
+            lr.modify([a](vs::VPay& x) -> long {
+                vs::user_call(a);
+                x.write(x.read() * 8 + a);
+                vs::user_call(a + 100);
+                return a % 2;
+            });
             return 0;
         }
         if (o[0] == 0 && flag == 2) {
@@ -269,25 +292,32 @@ struct LRImpl {
 struct LRComp {
     std::unique_ptr<LRImpl<vstd::mutex>> plain;
     std::unique_ptr<LRImpl<vstd::timed_mutex>> timed;
+    std::unique_ptr<LRImpl<OvMutex>> ovl;
     explicit LRComp(const vs::Case& c)
     {
         std::vector<long> plan;
-        bool rv = false, tm = false, as = false;
+        bool rv = false, tm = false, as = false, ov = false;
         for (size_t i = 1; i < c.cfg.size(); ++i) {
-            if (c.cfg[i] == -3) as = true;
+            if (c.cfg[i] == -4) ov = true;
+            else if (c.cfg[i] == -3) as = true;
             else if (c.cfg[i] == -1) rv = true;
             else if (c.cfg[i] == -2) tm = true;
             else plan.push_back(c.cfg[i]);
         }
         vs::plan().reset(plan);
         LPay::assign_throws() = as;
-        if (tm) timed.reset(new LRImpl<vstd::timed_mutex>(c, rv));
+        if (ov) ovl.reset(new LRImpl<OvMutex>(c, rv));
+        else if (tm) timed.reset(new LRImpl<vstd::timed_mutex>(c, rv));
         else plain.reset(new LRImpl<vstd::mutex>(c, rv));
     }
-    long op(int tid, const std::vector<long>& o) { return timed ? timed->op(tid, o) : plain->op(tid, o); }
+    long op(int tid, const std::vector<long>& o)
+    {
+        return ovl ? ovl->op(tid, o) : timed ? timed->op(tid, o) : plain->op(tid, o);
+    }
     void final(std::vector<std::vector<long>>& out)
     {
-        if (timed) timed->final(out);
+        if (ovl) ovl->final(out);
+        else if (timed) timed->final(out);
         else plain->final(out);
     }
 };
